@@ -253,6 +253,50 @@ def recon_checks(ctx, sp, mr, rng):
                     break
         except Exception as e:
             bad.setdefault("recon-exception", ("weighted SenseRecon raised %r" % e, {"kind": "impl-exception"}))
+        # L1WaveletRecon with a unitary (Haar, even sizes) transform: every solver incl. ADMM with a non-default rho must reach
+        # the same value of 1/2||Ax-y||^2 + lamda||Wx||_1
+        ish_e = [4, 4]
+        mps_e = crand(rng, [nc] + ish_e)
+        ksp_e = sp.fft(mps_e * crand(rng, ish_e), axes=[-1, -2])
+        W = sp.linop.Wavelet(ish_e, wave_name="haar")
+        A_e = mr.linop.Sense(mps_e)
+        lw = 0.3
+        objs = {}
+        for name, kw in (("GradientMethod", dict(solver="GradientMethod", max_iter=4000)),
+                         ("PDHG", dict(solver="PrimalDualHybridGradient", max_iter=4000)),
+                         ("ADMM-rho1", dict(solver="ADMM", max_iter=400, rho=1)),
+                         ("ADMM-rho4", dict(solver="ADMM", max_iter=600, rho=4))):
+            ctx.count("recon:L1WaveletRecon", key=(r, name), sample={"ishape": ish_e, "coils": nc, "lamda": lw, "solver": name})
+            try:
+                x = mr.app.L1WaveletRecon(ksp_e.copy(), mps_e, lw, wave_name="haar", show_pbar=False, **kw).run()
+                objs[name] = 0.5 * np.linalg.norm(A_e(x) - ksp_e) ** 2 + lw * np.abs(W(x)).sum()
+            except Exception as e:
+                bad.setdefault("recon-exception", ("L1WaveletRecon(%s) raised %r" % (name, e), {"kind": "impl-exception"}))
+        if objs:
+            best = min(objs.values())
+            for name, v in objs.items():
+                if v > best + 2e-3 * (1 + best):
+                    bad.setdefault("l1waveletrecon", ("L1WaveletRecon solver %s does not reach the documented minimum (%g vs %g)" % (name, v, best),
+                                                      {"kind": "oracle", "ishape": ish_e, "coils": nc, "lamda": lw, "objectives": objs}))
+        # non-Cartesian SenseRecon without weights, with k-space samples that are exactly zero in every coil
+        # (blanked readout points): they still belong to the data term
+        npts = 24
+        coord = np.array([[rng.uniform(-n / 2, n / 2) for n in ish] for _ in range(npts)])
+        A_nc = mr.linop.Sense(mps, coord=coord)
+        y_nc = np.asarray(A_nc(x_true)).copy()
+        y_nc[:, : npts // 3] = 0
+        ctx.count("recon:SenseRecon-noncart-zeros", key=(r, "nc"), sample={"ishape": ish, "coils": nc, "npts": npts, "zeroed": npts // 3})
+        try:
+            for kw in ({}, {"coil_batch_size": 1}):
+                x = mr.app.SenseRecon(y_nc.copy(), mps, lamda=0.1, coord=coord, max_iter=300, show_pbar=False, **kw).run()
+                g = A_nc.H(A_nc(x) - y_nc) + 0.1 * x
+                if np.linalg.norm(g) > 5e-3 * (1 + np.linalg.norm(A_nc.H(y_nc))):
+                    bad.setdefault("senserecon-noncart", ("non-Cartesian SenseRecon (no weights, some samples exactly zero) does not minimise "
+                                                          "1/2||Ax-y||^2 + lamda/2||x||^2 (normal-equation residual %.2e)" % np.linalg.norm(g),
+                                                          {"kind": "oracle", "ishape": ish, "coils": nc, "coord": coord.tolist()}))
+                    break
+        except Exception as e:
+            bad.setdefault("recon-exception", ("non-Cartesian SenseRecon raised %r" % e, {"kind": "impl-exception"}))
         # TV: two solvers must agree on the documented objective
         lam = 0.05
         objs = {}
